@@ -34,9 +34,12 @@ AllBatchIds    == BatchIdsUpTo(Len(batches))
 CtxOf(id)      == LET r == CHOOSE r \in DOMAIN entered : id \in ItemIds(entered[r])
                       i == CHOOSE i \in DOMAIN entered[r] : entered[r][i].id = id
                   IN entered[r][i].ctx
-\* the batches (of the sequence bs) that hold part of request r: some of its items, or (real payloads
-\* only) one of its containers even if no item of it came along
-PartsIn(bs, r) == {k \in DOMAIN bs : ItemIds(bs[k].items) \cap ItemIds(entered[r]) # {} \/ r \in bs[k].reqs}
+\* the batches (of the sequence bs) that hold items of request r ...
+PartsIn(bs, r) == {k \in DOMAIN bs : ItemIds(bs[k].items) \cap ItemIds(entered[r]) # {}}
+\* ... and those that hold items of r or (real payloads only) one of its containers although no item
+\* of it came along.  Whether an empty container counts as "part of the request" is not determined by
+\* the statement (it speaks of telemetry items), so for such batches both answers are accepted below.
+PartsLooseIn(bs, r) == PartsIn(bs, r) \cup {k \in DOMAIN bs : r \in bs[k].reqs}
 
 ---------------------------------------------------------------------------
 (* Clauses about ONE batch b, given the ids in the batches before it *)
@@ -48,8 +51,9 @@ BatchFresh(b, prevIds) == /\ Cardinality(ItemIds(b.items)) = Len(b.items)
 \* "each item keeps its full context"
 BatchIdentity(b) == \A i \in DOMAIN b.items : b.items[i].id \in EnteredIds => b.items[i].ctx = CtxOf(b.items[i].id)
 \* "every emitted batch is no larger than the configured maximum in the configured unit unless it
-\*  holds a single indivisible item"
-BatchSize(b, max) == max = 0 \/ b.size <= max \/ Len(b.items) = 1
+\*  holds a single indivisible item".  A part that holds no item at all (empty containers only, bytes
+\*  sizer) is not judged: the statement's unit is the item.
+BatchSize(b, max) == max = 0 \/ b.size <= max \/ Len(b.items) <= 1
 
 ---------------------------------------------------------------------------
 (* Clauses about the callbacks; a firing is recorded as [err, after, iff] with the two verdicts
@@ -63,7 +67,9 @@ FiredAfterPartsIn(bs, r, held) ==
     /\ held \cap ItemIds(entered[r]) = {}
     /\ \A k \in PartsIn(bs, r) : bs[k].state = "closed"
 \* "... and reports an error if and only if one of those batches failed"
-FiredErrIffIn(bs, r, err) == err <=> \E k \in PartsIn(bs, r) : bs[k].state = "closed" /\ ~bs[k].ok
+Failed(bs, k) == bs[k].state = "closed" /\ ~bs[k].ok
+FiredErrIffIn(bs, r, err) == /\ (\E k \in PartsIn(bs, r) : Failed(bs, k)) => err
+                             /\ err => \E k \in PartsLooseIn(bs, r) : Failed(bs, k)
 
 ---------------------------------------------------------------------------
 (* Clauses at quiescence (everything handed in was consumed, every export returned, shutdown done) *)
